@@ -20,6 +20,7 @@ import time
 
 ROOT = os.path.dirname(os.path.abspath(__file__))
 REPO = os.environ.get("VERIF_REPO", "/repo")
+EVID = os.environ.get("VERIF_EVIDENCE") or None  # scratch evidence dir for seeded-change runs
 GOENV = dict(os.environ, GOFLAGS="-mod=mod", GOWORK="off", GOPROXY="off", GOSUMDB="off",
              GOTOOLCHAIN="local")
 sys.path.insert(0, ROOT)
@@ -104,7 +105,7 @@ def main():
     spec = CHECKS[pid]
     t0 = time.time()
     exe = build_engine()
-    os.makedirs(os.path.join(ROOT, "evidence", "replay"), exist_ok=True)
+    os.makedirs(os.path.join(EVID or os.path.join(ROOT, "evidence"), "replay"), exist_ok=True)
     kf_open, kf_fixed = known_findings(pid)
     errors, violations, known_hits = [], [], []
     runs_ev = []
@@ -184,7 +185,7 @@ def main():
         for n, v in enumerate(res.get("violations") or []):
             if pkg not in replayers:
                 replayers[pkg] = build_replayer(pkg, pid + "-" + os.path.basename(pkg))
-            rp = os.path.join(ROOT, "evidence", "replay", "%s-%s-%d.json" % (pid, run["harness"], n))
+            rp = os.path.join(EVID or os.path.join(ROOT, "evidence"), "replay", "%s-%s-%d.json" % (pid, run["harness"], n))
             json.dump({"harness": run["harness"], "label": v["label"], "params": params,
                        "known": v.get("known", ""), "detail": v.get("detail"),
                        "stack": (v.get("stack") or [])[:12], "items": v["replay"]},
@@ -245,7 +246,7 @@ def main():
         "wall_s": round(time.time() - t0, 2),
         "violations": len(violations),
     }
-    json.dump(ev, open(os.path.join(ROOT, "evidence", pid + ".json"), "w"), indent=1)
+    json.dump(ev, open(os.path.join(EVID or os.path.join(ROOT, "evidence"), pid + ".json"), "w"), indent=1)
     seen = set()
     for key, what, rp in known_hits:
         if key not in seen:
